@@ -19,6 +19,7 @@ EXPLANATION = (
     "invalidates wholesale.  R13.6: in the filtered observer every reported resource is the one that was tested "
     "(guard/action agreement), no report is control-dependent on the failure of another resource's watched-test, and a move covers the parents of both ends.  R13.7 (=R09.7): every element entering the cached file listing is dominated by a negative is_ignored test of that element.  R13.8: the not-found path of a module lookup stores nothing into the concluded-data cell.  R13.9: object-lifetime caches (saveit) in the object model never hold values computed from concluded data.  Sufficiency of invalidation for every query is not decided."
     ' R13.10: the change indicator is compared for (in)equality only and carries mtime and size.  R13.11: re-indexing a module deletes its rows on every path before inserting; the LIKE prefix that deletes a package escapes %, _ and the escape character (first).'
+    ' R13.12: each validate search looks the validated resource itself up in the watch table, folder or not.'
 )
 ASSUMPTIONS = ["required event sets per cache are a hand-confirmed table (sa/rules/c13.py REQUIRED) with reasons"]
 
